@@ -303,7 +303,7 @@ func checkC16(c c16Case, ctx *vCtx) *vFailure {
 		case <-time.After(30 * time.Second):
 			_ = cmd.Process.Kill()
 			<-done
-			vFault("real binary timed out")
+			vHang("the real binary did not terminate within its time limit")
 		}
 		return c16Run{}
 	}
